@@ -169,7 +169,7 @@ class Check:
 
         for f, k in known_hits:
             print(f"KNOWN-FINDING: property={self.prop} {k.get('what', f.message)} [{f.rule} at {f.file}:{f.line} {f.function}]")
-        outdir = VERIF / "findings" / self.prop
+        outdir = Path(os.environ.get("PDTSA_FINDINGS_DIR") or (VERIF / "findings")) / self.prop
         for f in violations:
             outdir.mkdir(parents=True, exist_ok=True)
             h = hashlib.sha1(f.key.encode()).hexdigest()[:12]
